@@ -876,5 +876,72 @@ theorem stackLast_spec (a : ND α) (rest : List (ND α)) (h : ∀ b ∈ rest, b.
     rw [List.eraseIdx_append_of_length_le (by simp [hi.length])]; simp [hi.length]
   rw [e1, e2]
 
+/-! ### the last two axes: `a.swapaxes(-1,-2)`, `a[..., k, :]`, `np.stack([a, b], axis=-2)` -/
+
+theorem swapPos_last2 (o : List Nat) (p q : Nat) :
+    swapPos (o ++ [p, q]) (o.length + 1) o.length = o ++ [q, p] := by
+  unfold swapPos
+  have h1 : (o ++ [p, q]).getD o.length default = p := by simp [List.getD_eq_getElem?_getD]
+  have h2 : (o ++ [p, q]).getD (o.length + 1) default = q := by
+    simp [List.getD_eq_getElem?_getD, List.getElem?_append_right]
+  rw [h1, h2]
+  rw [List.set_append_right _ _ (by omega)]
+  simp only [Nat.add_sub_cancel_left, List.set_cons_succ, List.set_cons_zero]
+  rw [List.set_append_right _ _ (by omega)]
+  simp
+
+theorem shape_swapLast2 (a : ND α) {o : List Nat} {p q : Nat} (hs : a.shape = o ++ [p, q]) :
+    (a.swapaxes (a.rank - 1) (a.rank - 2)).shape = o ++ [q, p] := by
+  have hr : a.rank = o.length + 2 := by simp [ND.rank, hs]
+  simp only [swapaxes, shape_ofFn, hr, hs]
+  exact swapPos_last2 o p q
+
+theorem get_swapLast2 (a : ND α) {o i : List Nat} {p q : Nat} (hs : a.shape = o ++ [p, q]) (hi : Valid o i)
+    {x y : Nat} (hx : x < q) (hy : y < p) :
+    (a.swapaxes (a.rank - 1) (a.rank - 2)).get (i ++ [x, y]) = a.get (i ++ [y, x]) := by
+  have hr : a.rank = o.length + 2 := by simp [ND.rank, hs]
+  unfold swapaxes
+  rw [get_ofFn]
+  · rw [hr]
+    have := swapPos_last2 i x y
+    rw [hi.length] at this
+    simpa using congrArg a.get this
+  · rw [hr, hs]
+    simp only [Nat.add_sub_cancel, show o.length + 2 - 2 = o.length from rfl, show o.length + 2 - 1 = o.length + 1 from rfl]
+    rw [swapPos_last2]
+    exact hi.append (by simp [hx, hy])
+
+theorem shape_selectRow (a : ND α) {o : List Nat} {p q : Nat} (hs : a.shape = o ++ [p, q]) (k : Nat) :
+    (a.selectAxis o.length k).shape = o ++ [q] := by
+  simp [selectAxis, hs, List.eraseIdx_append_of_length_le]
+
+/-- `a[..., k, :]` -/
+theorem get_selectRow (a : ND α) {o i : List Nat} {p q : Nat} (hs : a.shape = o ++ [p, q]) (k : Nat)
+    (hi : Valid o i) {c : Nat} (hc : c < q) :
+    (a.selectAxis o.length k).get (i ++ [c]) = a.get (i ++ [k, c]) := by
+  unfold selectAxis
+  rw [get_ofFn]
+  · rw [← hi.length, insertIdx_length_append]
+  · rw [hs, List.eraseIdx_append_of_length_le (le_refl _)]
+    simpa using hi.append (by simpa using hc : Valid [q] [c])
+
+/-- `np.stack([a, b], axis=-2)` of two arrays of vectors: unit `i` is the 2-row matrix `[a[i], b[i]]` -/
+theorem stackRows2_spec (a b : ND α) {o : List Nat} {q : Nat} (ha : a.shape = o ++ [q]) (hb : b.shape = o ++ [q]) :
+    ∃ c, stack [a, b] o.length = .ok c ∧ c.shape = o ++ [2, q] ∧
+      ∀ i e cc, Valid o i → e < 2 → cc < q → c.get (i ++ [e, cc]) = ([a, b].getD e a).get (i ++ [cc]) := by
+  unfold stack
+  have hall : [b].all (fun x => x.shape == a.shape) = true := by simp [ha, hb]
+  simp only [hall, if_true]
+  have hsh : a.shape.insertIdx o.length ([a, b].length) = o ++ [2, q] := by
+    rw [ha, insertIdx_length_append]; rfl
+  refine ⟨_, rfl, by rw [shape_ofFn, hsh], ?_⟩
+  intro i e cc hi he hcc
+  rw [get_ofFn _ _ (by rw [hsh]; exact hi.append (by simp [he, hcc]))]
+  have e1 : (i ++ [e, cc]).getD o.length 0 = e := by
+    simp [List.getD_eq_getElem?_getD, List.getElem?_append_right, hi.length]
+  have e2 : (i ++ [e, cc]).eraseIdx o.length = i ++ [cc] := by
+    rw [List.eraseIdx_append_of_length_le (by simp [hi.length])]; simp [hi.length]
+  rw [e1, e2]
+
 end ND
 end GT.Act
